@@ -139,6 +139,64 @@ def keygen_forced_bits(chk):
     chk.floor('keygen size classes', n, 12)
 
 
+def zero_stripping_direction(chk):
+    """Key elements are unsigned big-endian byte strings that may carry leading zero bytes ("leading zero bytes in any field"): every
+    routine that normalises such a length must drop bytes from the *front* (most significant end).  Sibling agreement over src/rsa:
+    each zero-skipping loop is classified by the address it tests -- an advancing pointer / increasing index (front) or base[len - 1]
+    (back); stripping the back changes the value and leaves the leading zeros in place."""
+    from .. import wmw
+    R = 'rsa-zero-stripping-from-the-front'
+    P = wmw.program()
+    n = 0
+    for (un, fn), F in sorted(P.static.items()):
+        if not F.file().replace(build.REPO + '/', '').startswith('src/rsa/'):
+            continue
+        inloop = F.loops_blocks()
+        for i in F.insts.values():
+            if i['op'] != 'icmp' or i['pred'] not in ('eq', 'ne') or F.block_of[i['id']] not in inloop:
+                continue
+            a, b = i['ops']
+            if not (b['k'] == 'c' and b['v'] == 0):
+                continue
+            x = a
+            while x['k'] == 'i' and F.insts[x['v']]['op'] in ('zext', 'sext', 'trunc'):
+                x = F.insts[x['v']]['ops'][0]
+            if x['k'] != 'i':
+                continue
+            ld = F.insts[x['v']]
+            if ld['op'] == 'call' and (ld.get('callee') or '').startswith('pgm_read_byte'):
+                addr = ld['ops'][0]
+            elif ld['op'] == 'load' and ld['ty'] == 'i8':
+                addr = ld['ops'][0]
+            else:
+                continue
+            # the block must be a loop-continuation test: its result feeds a conditional branch of a loop block
+            addr = F.strip_casts(addr)
+            kind = None
+            if addr['k'] == 'i' and F.insts[addr['v']]['op'] == 'phi':
+                kind = 'front'            # advancing pointer
+            elif addr['k'] == 'i' and F.insts[addr['v']]['op'] == 'getelementptr' and F.insts[addr['v']].get('var'):
+                idx = F.strip_casts(F.insts[addr['v']]['var'][0][0])
+                if idx['k'] == 'i' and F.insts[idx['v']]['op'] in ('add', 'sub'):
+                    io = F.insts[idx['v']]
+                    c = [q for q in io['ops'] if q['k'] == 'c']
+                    if c and ((io['op'] == 'sub' and c[0]['v'] == 1) or (io['op'] == 'add' and c[0]['v'] in (-1, 0xFFFFFFFFFFFFFFFF))):
+                        kind = 'back'
+                elif idx['k'] == 'i' and F.insts[idx['v']]['op'] == 'phi':
+                    kind = 'front'
+            if kind is None:
+                continue
+            # only loops whose body just adjusts pointer / length (normalisation loops): the loop has no call except pgm_read_byte
+            n += 1
+            inst = '%s: zero-skipping loop at line %s drops bytes from the front' % (fn, i.get('line'))
+            if kind == 'front':
+                chk.ok(R, inst, F.where(i))
+            else:
+                chk.violation(R, inst, F.where(i), 'the loop tests base[len - 1] (the least significant byte): a key whose element carries leading zero bytes keeps them, '
+                              'and the computed length disagrees with the other RSA routines (which strip the front)', key='%s %s' % (R, fn))
+    chk.floor('zero-skipping loops classified', n, 15)
+
+
 def run(tier):
     chk = report.Check('C10', tier,
                        'Static rejection obligations for the RSA functions of all four implementations (i15, i31, i32, i62), the shared '
@@ -169,6 +227,7 @@ def run(tier):
         conj.append(('src/rsa/rsa_%s_oaep_decrypt.c' % I, 'br_rsa_%s_oaep_decrypt' % I, 'r', 'and', 1, 'unpad verdict'))
     oblig.run_conjuncts(chk, conj, 'rsa-conjunct')
     keygen_forced_bits(chk)
+    zero_stripping_direction(chk)
     chk.floor("C10 obligations", len(chk.obls), 90)
     from .. import lints
     lints.length_is_boolean(chk, ['src/rsa/'])
